@@ -25,7 +25,7 @@ func init() {
 			"Added after blind round 7: the sweeper's idle criterion cross-listed from C17 (the service runs the sweep at every BeginTransaction RPC). " +
 			"Added after blind round 8: a handler that fills a repeated field in a loop allocates each element inside the loop; handlers write no fields of the server object.",
 		NotDecided: "equality of responses with the embedded API for all request sequences and data sets; gRPC transport behaviour; connection-bound transaction cleanup; GetStats contents.",
-		Rules:      []func(*Ctx, *Reporter){ruleC19Delegation, ruleC19Limits, ruleC19Rejection, ruleC19Handles, ruleC19ScanOptions, ruleScanConsumers, ruleEmptyNotDeleted, ruleFilter, ruleTxOrphanRemoval, subRules(ruleTxStale, "cleanup-criteria"), ruleHandlersAppendFreshElements, ruleHandlersKeepNoState},
+		Rules:      []func(*Ctx, *Reporter){ruleC19Delegation, ruleC19Limits, ruleC19Rejection, ruleC19Handles, ruleC19ScanOptions, ruleScanConsumers, ruleEmptyNotDeleted, ruleFilter, ruleTxOrphanRemoval, subRules(ruleTxStale, "cleanup-criteria"), ruleHandlersAppendFreshElements, ruleHandlersKeepNoState, ruleServiceSuccessOnlyAfterEngine},
 	})
 }
 
